@@ -31,7 +31,8 @@ CLAIMS = {
             "Static decision of the property's structural sentence: the jump-carrying opcode set agrees in the marking loop, the fix-up loop and "
             "the VM; no instruction can be absorbed into a fused group unless is_jump_target[j] was tested false since j last changed (explored "
             "over all paths incl. the has_write flag); the pass builds only path-fusion instructions and moves everything else unchanged; all "
-            "jump payloads are rewritten through the index map. Does not decide semantic equality of the fused VM arms.",
+            "jump payloads are rewritten through the index map; the fused LoadPath/WritePath arms keep the unfused rule for a missing attribute "
+            "(undefined only for the last segment, error otherwise). Does not decide the remaining semantic equality of the fused VM arms.",
             "trusts rustc's MIR",
             "DESIGN.md §5 C09"),
     "C10": ("who-may-write / who-may-read inventories; no-error-after-commit reachability; undo-list def-use; must-pass-through finalize",
@@ -150,7 +151,8 @@ CLAIMS["C03"] = (
     "Static decision of the clauses of C03 whose truth is in the shape of the code: name resolution consults loops (innermost first), assignments, "
     "includer, context, global in that order and a hit returns at once; `set` writes the innermost loop frame else the render-wide map, `set_global` "
     "the render-wide map, with compiler and VM agreeing on the opcodes; every advance to a further element clears the per-iteration assignments; the "
-    "loop counters follow index = index0 + 1, first = false after the first, last = (index == length); the parser's loop.X table and the VM's table "
+    "loop counters follow index = index0 + 1, first = false after the first, last = (index == length), with an exact element count (chars for strings) "
+    "behind loop.length; the render-time State has only the reviewed fields; the parser's loop.X table and the VM's table "
     "agree; an include runs on a fresh State linked to the includer only through `&State` (a type without interior mutability) and writes into the "
     "innermost open capture; continue/break/for-else/if compile and execute against the innermost loop with the documented skeleton. For all "
     "templates and contexts, which a snapshot per construct cannot give. Does NOT decide the rendered text of arbitrary statement trees "
@@ -165,7 +167,8 @@ CLAIMS["C04"] = (
     "both lineage loops (nearest ancestor first); a lineage starts with the own definition, appends an ancestor's definition only where the ancestor defines the block, only "
     "while the definition just appended calls super() and only if the own one does; inherited blocks never overwrite (entry().or_insert); orphan child blocks are refused; "
     "RenderBlock uses the most-derived template's lineage, element 0, level 0; super() takes the topmost matching active block, runs level + 1 and restores the level on "
-    "every path; the render runs the root's chunk on the most-derived template's VM; single-block rendering captures exactly on `capture_block == Some(this block)` and "
+    "every path, and renders on every call (no memo); a lineage walk depends on the own super() test alone; the render runs the root's chunk on the most-derived "
+    "template's VM; single-block rendering captures exactly on `capture_block == Some(this block)` with the capture stack put aside and "
     "returns that buffer. For all chains and nestings. Does NOT decide that these compose to the documented output (value-level), nor order independence beyond C10.DERIVED.",
     "trusts rustc's MIR; std Vec::reverse / Rev / HashMap entry API",
     "DESIGN.md §5 C04")
